@@ -396,6 +396,7 @@ func (s *c15Scenario) reg(ev ...interface{}) {
 }
 
 type c15RawMsg struct {
+	pub     *message.Message // the message a real bus handed to its publisher (read when consumed)
 	payload []byte
 	meta    map[string]string
 	source  string
@@ -500,7 +501,7 @@ func (s *c15Scenario) rawMessage() c15RawMsg {
 			for k, x := range msg.Metadata {
 				md[k] = x
 			}
-			return c15RawMsg{payload: msg.Payload, meta: md, source: "bus", sent: key[:]}
+			return c15RawMsg{payload: msg.Payload, meta: md, source: "bus", sent: key[:], pub: msg}
 		}
 	}
 	r := c15RawMsg{meta: map[string]string{}, source: "crafted"}
@@ -800,8 +801,21 @@ func (s *c15Scenario) run(sIdx int) ([]*c15Delivery, error) {
 	// the deliveries
 	var ds []*c15Delivery
 	nmsg := 3 + s.rng.Intn(6)
+	// all messages are produced first (bus sends included) and only then consumed: a message that
+	// came out of a bus is read late, after every later Send / Publish of the scenario
+	raws := make([]c15RawMsg, nmsg)
+	for k := range raws {
+		raws[k] = s.rawMessage()
+	}
 	for k := 0; k < nmsg; k++ {
-		raw := s.rawMessage()
+		raw := raws[k]
+		if raw.pub != nil {
+			raw.payload = raw.pub.Payload
+			raw.meta = map[string]string{}
+			for mk, mv := range raw.pub.Metadata {
+				raw.meta[mk] = mv
+			}
+		}
 		pid := s.tab.addPayload(raw.payload)
 		targets := [][]int{}
 		if s.kind == 2 {
@@ -935,6 +949,9 @@ type c15BusCall struct {
 	Res       int             `json:"res"` // 0 ok, 1..5 marshal/topic/hook/modify/publish error, 6 panicked, 7 other error
 	Anomalies []string        `json:"anomalies,omitempty"`
 
+	Reread    int  `json:"reread"` // payload of the published message re-read after ALL calls of the scenario; -1 = nothing published
+	RereadSame bool `json:"reread_same"` // uuid and metadata unchanged as well
+	published *message.Message
 	v         any
 	plainSend bool
 	uuidStr   string
@@ -1072,6 +1089,9 @@ func (b *c15BusScenario) run(sIdx, tabIdx, mk int) ([]*c15BusCall, error) {
 			return nil
 		}
 		c.rec("publish", b.in.ID(topic), c.snap(b.in, msgs[0]))
+		c.mu.Lock()
+		c.published = msgs[0] // kept, like a publisher that consumes later: re-read after the whole scenario
+		c.mu.Unlock()
 		switch c.Pub {
 		case 0:
 			return nil
@@ -1235,7 +1255,7 @@ func (b *c15BusScenario) run(sIdx, tabIdx, mk int) ([]*c15BusCall, error) {
 		for _, c := range cs[i : i+nb] {
 			c.Conc = nb
 			wg.Add(1)
-			go func(c *c15BusCall) {
+			runCall := func(c *c15BusCall) {
 				defer wg.Done()
 				g := c15Gid()
 				b.calls.Store(g, c)
@@ -1271,10 +1291,38 @@ func (b *c15BusScenario) run(sIdx, tabIdx, mk int) ([]*c15BusCall, error) {
 					c.Res = 7
 					c.Anomalies = append(c.Anomalies, "unclassified error: "+err.Error())
 				}
-			}(c)
+			}
+			if nb == 1 {
+				runCall(c) // sequential calls stay on the scenario's goroutine
+			} else {
+				go runCall(c)
+			}
 		}
 		wg.Wait()
 		i += nb
+	}
+	// ownership: every published message is read again only now, after all later calls
+	for _, c := range cs {
+		c.Reread = -1
+		if c.published != nil {
+			c.Reread = b.in.ID("payload:" + string(c.published.Payload))
+			c.RereadSame = true
+			for _, ev := range c.Trace {
+				if ev[0] == "publish" {
+					sn := ev[2].(c15Snap)
+					now := c15SortedMeta(b.in, c.published.Metadata)
+					if sn.UUID != b.in.ID(c.published.UUID) || len(now) != len(sn.Meta) {
+						c.RereadSame = false
+					} else {
+						for k := range now {
+							if now[k] != sn.Meta[k] {
+								c.RereadSame = false
+							}
+						}
+					}
+				}
+			}
+		}
 	}
 	// default NewUUID: the library generates the uuid; take it from the first observation
 	if defaultUUID {
